@@ -32,7 +32,7 @@ class MultichainPolicyIteration(Plans):
             action_matrix=mdp.action_matrix.astype(bool),
             max_iterations=self.max_iterations
         )
-        state_gain, action_gain, state_bias, action_bias, _, iterations = results
+        state_gain, action_gain, state_bias, action_bias, final_policy, iterations = results
         gain_max_actions = np.isclose(
             action_gain, action_gain.max(-1, keepdims=True),
             atol=10**(-self.VALUE_DECIMAL_PRECISION),
@@ -44,6 +44,9 @@ class MultichainPolicyIteration(Plans):
             rtol=0
         )
         policy_matrix = gain_max_actions & bias_max_actions
+        # the policy the iteration stopped at is always part of the returned support (the two
+        # tolerance tests above can otherwise leave a row empty, which divides 0 by 0 below)
+        policy_matrix[np.arange(len(final_policy)), final_policy] = True
         policy_matrix = policy_matrix/policy_matrix.sum(-1, keepdims=True)
         policy=TabularPolicy.from_state_action_lists(
             state_list=mdp.state_list,
